@@ -140,6 +140,37 @@ func (b *broker) stop() {
 	}
 }
 
+// handlersLeft ends the broker with SIGQUIT and returns the goroutines of its
+// dump that are inside one of the broker's request handlers (the runtime
+// prints every goroutine before it exits). Called when nothing is in flight
+// any more and every protocol timer has long fired: a handler that is still
+// there belongs to a request that never completes.
+func (b *broker) handlersLeft() (n int, excerpt string) {
+	if !b.alive() {
+		return 0, ""
+	}
+	before, _ := ioutil.ReadFile(b.stderr)
+	b.cmd.Process.Signal(syscall.SIGQUIT)
+	select {
+	case <-b.exited:
+	case <-time.After(20 * time.Second):
+		b.cmd.Process.Kill()
+	}
+	data, _ := ioutil.ReadFile(b.stderr)
+	if len(data) >= len(before) {
+		data = data[len(before):]
+	}
+	for _, g := range vlib.ParseDump(string(data)) {
+		if g.HasFrame("main.proxyPolls") || g.HasFrame("main.clientOffers") || g.HasFrame("main.proxyAnswers") || g.HasFrame("main.ampClientOffers") || g.HasFrame("main.debugHandler") || g.HasFrame("main.metricsHandler") || g.HasFrame("main.(*IPC).") {
+			n++
+			if len(excerpt) < 6000 {
+				excerpt += g.Raw + "\n"
+			}
+		}
+	}
+	return n, excerpt
+}
+
 func (b *broker) panicLines() []string {
 	data, _ := ioutil.ReadFile(b.stderr)
 	var out []string
@@ -500,6 +531,7 @@ func TestVerifC14(t *testing.T) {
 	batch := 100
 	classes := map[string]bool{}
 	var cmu sync.Mutex
+	var suspects []map[string]interface{}
 	for start := 0; start < nSeq; start += batch {
 		var wg sync.WaitGroup
 		sem := make(chan struct{}, 24)
@@ -535,6 +567,15 @@ func TestVerifC14(t *testing.T) {
 						if rq.BodyLen < 4096 {
 							rec["body_base64"] = base64.StdEncoding.EncodeToString(rq.body)
 						}
+						if strings.Contains(rp.Err, "i/o timeout") {
+							// no byte of a response within 40 s. Whether the request never completes, or
+							// the machine was merely too slow, is decided at the end from the broker's own
+							// state: a handler that is still there when nothing is in flight any more
+							cmu.Lock()
+							suspects = append(suspects, rec)
+							cmu.Unlock()
+							continue
+						}
 						res.Violate("c14:no-well-formed-response:"+sigClass(rq), fmt.Sprintf("request %s %s (%s) got: %s", rq.Method, rq.Target, rq.BodyDesc, rp.Err), rec)
 					}
 				}
@@ -557,6 +598,23 @@ func TestVerifC14(t *testing.T) {
 		res.Violate("c14:handler-panic", fmt.Sprintf("%d 'http: panic serving' lines on the broker's stderr, e.g. %s", len(pl), pl[0]), map[string]interface{}{"case": "stderr", "lines": pl[:min(len(pl), 5)]})
 	}
 	res.Obs("request_classes", int64(len(classes)))
+	if len(suspects) > 0 {
+		// every protocol timer (10 s poll, 10 s answer wait) has fired twice over
+		time.Sleep(45 * time.Second)
+		n, excerpt := b.handlersLeft()
+		res.Obs("requests_without_a_response_within_40s", int64(len(suspects)))
+		if n > 0 {
+			rec := suspects[0]
+			rec["handler_goroutines_left"] = n
+			rec["goroutines"] = excerpt
+			rec["all_requests_without_response"] = len(suspects)
+			res.Violate("c14:request-never-completes:handler-still-in-broker", fmt.Sprintf("%d request(s) got no response within 40 s, and 45 s after the last request %d goroutine(s) are still inside the broker's handlers", len(suspects), n), rec)
+		} else {
+			for _, rec := range suspects {
+				res.Inconcl(fmt.Sprintf("%v: no response within 40 s, but no handler was left in the broker afterwards (the machine was too slow)", rec["case"]))
+			}
+		}
+	}
 	legacyEquivalence(res, root)
 	liveSessionAnswers(res, root)
 	concurrentLoad(res, root)
